@@ -203,3 +203,165 @@ func R72() Rule {
 		}
 	}}
 }
+
+// ---------------------------------------------------------------------------
+// R73: an object (or bucket) the store does not have is answered 404.
+//
+// C02: "a delete makes it absent (404) from metadata, download and listing";
+// C15: "a missing source is 404"; C20: "requests for missing … buckets or
+// objects" get a well-formed error.  The stores signal "not found" with a nil
+// object and a nil error.  On the branch where the result of a store read is
+// known nil, every error response written (gapiError) and every coded error
+// built (fmtErrorfCode) carries the constant 404 — not 500, 400 or 200.
+// Branches that write no response of their own (the upload paths, where an
+// absent object is a legitimate state judged by validateConds) are not
+// obligations.
+// ---------------------------------------------------------------------------
+
+func R73() Rule {
+	return Rule{Name: "R73", Run: func(c *core.Ctx) {
+		P := c.P
+		if P.SPkgs[core.PkgGcsemu] == nil {
+			return
+		}
+		fromStoreRead := func(v ssa.Value) bool {
+			var rec func(v ssa.Value, depth int) bool
+			seen := map[ssa.Value]bool{}
+			rec = func(v ssa.Value, depth int) bool {
+				if v == nil || depth > 6 || seen[v] {
+					return false
+				}
+				seen[v] = true
+				switch x := v.(type) {
+				case *ssa.Extract:
+					if call, ok := x.Tuple.(*ssa.Call); ok && x.Index == 0 {
+						if ci := core.Call(call); ci != nil && isStoreCall(ci, "Get", "GetMeta", "ReadMeta", "GetBucketMeta") {
+							return true
+						}
+						// a helper that hands a store read through (finishCompose → GetMeta)
+						if sc := call.Call.StaticCallee(); sc != nil && sc.Blocks != nil && core.PkgPathOf(sc) == core.PkgGcsemu {
+							for _, r := range returnsIn(sc) {
+								if x.Index < len(r.Results) && rec(r.Results[x.Index], depth+1) {
+									return true
+								}
+							}
+						}
+					}
+				case *ssa.Call:
+					if ci := core.Call(x); ci != nil && isStoreCall(ci, "GetBucketMeta") {
+						return true
+					}
+				case *ssa.MakeInterface:
+					return rec(x.X, depth+1)
+				case *ssa.Phi:
+					for _, e := range x.Edges {
+						if rec(e, depth+1) {
+							return true
+						}
+					}
+				case *ssa.UnOp:
+					if x.Op == token.MUL {
+						if cell := core.CellOf(x.X); cell != nil {
+							for _, st := range core.StoresTo(cell) {
+								if rec(st.Val, depth+1) {
+									return true
+								}
+							}
+						}
+					}
+				}
+				return false
+			}
+			return rec(v, 0)
+		}
+		n := 0
+		for _, fn := range P.SrcFuncs(core.PkgGcsemu) {
+			k := 0
+			for _, b := range fn.Blocks {
+				ifi, ok := lastIf(b)
+				if !ok {
+					continue
+				}
+				bin, ok := ifi.Cond.(*ssa.BinOp)
+				if !ok || (bin.Op != token.EQL && bin.Op != token.NEQ) {
+					continue
+				}
+				var v ssa.Value
+				switch {
+				case core.IsNilConst(bin.Y):
+					v = bin.X
+				case core.IsNilConst(bin.X):
+					v = bin.Y
+				default:
+					continue
+				}
+				if _, isIface := v.Type().Underlying().(*types.Interface); (!isPtr(v.Type()) && !isIface) || !fromStoreRead(v) {
+					continue
+				}
+				nilSucc := b.Succs[0]
+				if bin.Op == token.NEQ {
+					nilSucc = b.Succs[1]
+				}
+				if len(nilSucc.Preds) != 1 {
+					continue
+				}
+				// coded responses / errors that are specific to the nil branch
+				type coded struct {
+					pos  token.Pos
+					code int64
+					ok   bool
+				}
+				var found []coded
+				for _, rb := range fn.Blocks {
+					if !nilSucc.Dominates(rb) {
+						continue
+					}
+					for _, in := range rb.Instrs {
+						ci := core.Call(in)
+						if ci == nil || ci.Static == nil {
+							continue
+						}
+						var codeArg ssa.Value
+						switch core.FuncName(ci.Static) {
+						case "(*GcsEmu).gapiError":
+							if len(ci.Common.Args) >= 3 {
+								codeArg = ci.Common.Args[2]
+							}
+						case "fmtErrorfCode":
+							if len(ci.Common.Args) >= 1 {
+								codeArg = ci.Common.Args[0]
+							}
+						}
+						if codeArg == nil || core.PkgPathOf(ci.Static) != core.PkgGcsemu {
+							continue
+						}
+						k2, isC := core.ConstInt(codeArg)
+						found = append(found, coded{ci.Instr.Pos(), k2, isC})
+					}
+				}
+				if len(found) == 0 {
+					continue
+				}
+				n++
+				k++
+				c.Fn(core.FuncName(core.Root(fn)))
+				construct := fmt.Sprintf("%s/store-read-nil#%d/answered-404", core.FuncName(core.Root(fn)), k)
+				bad := token.NoPos
+				var badCode int64
+				for _, f := range found {
+					if !f.ok || f.code != 404 {
+						bad, badCode = f.pos, f.code
+					}
+				}
+				if bad != token.NoPos {
+					c.Bad("R73", construct, bad, "on the branch where the store reported the object (or bucket) as not found (nil, no error) the response / coded error carries %d instead of the constant 404: a deleted or never-created object is not reported absent", badCode)
+				} else {
+					c.Ok("R73", construct, found[0].pos, true, "the not-found branch answers 404 (%d coded site(s))", len(found))
+				}
+			}
+		}
+		if n < 4 {
+			c.Unknown("R73", "floor/not-found-branches", token.NoPos, "only %d not-found branches with a coded response found", n)
+		}
+	}}
+}
